@@ -144,6 +144,22 @@ CLAIMS = {
         'arrays is not generated. No axioms.',
    technique='Coq proofs (soundness/completeness against a declarative spec, mutual induction, fuel monotonicity) + correspondence + oracle',
    ref='section 9, C07'),
+ 'C05': dict(
+   category='proof',
+   text='Coq theorems over the model of the collector and of name resolution (Model/Refs.v): UsedUserTypes() is duplicate-free and lists '
+        'exactly the names in a reference position of the schema (Refers: type, or - names and rule-sets -, value shortcut and choice, key '
+        'shortcut, allOf, additionalProperties; any depth), proved through the accumulator with its "already processed" set; the names '
+        'Check() may report as not found are exactly the unregistered names referred to by the root or a registered type; an unregistered '
+        'type reachable from the root is reported (if), and the converse holds whenever the registered types the root does not reach refer '
+        'to registered types only (iff); registering one more valid unreferenced type changes neither list. Tie: model vs '
+        'UsedUserTypes() (ordered) and the 1302 verdict with the named type, for every reference position x every subset of its targets '
+        'registered (at the root, in a used type, in an unused type) and random valid projects x every subset of their types withheld, '
+        'with and without extra unused types, in both registration styles; independent python reachability oracle.',
+   note='Trusted: Coq kernel; model tied by correspondence; text printer and oracle; harness. The code checks every registered type, so a '
+        'registered but unreachable type that names a withheld type also yields 1302: the iff of the statement is claimed under the '
+        '"valid types" premise only (no alarm in that corner). No axioms.',
+   technique='Coq proofs (accumulator invariant, nested induction over the node tree) + correspondence over registered subsets + oracle',
+   ref='section 9, C05'),
 }
 
 def main():
